@@ -252,6 +252,16 @@ fn one(ctx: &mut Ctx, tape: &[u32]) -> Result<(), Fail> {
     }
 }
 
+/// libFuzzer entry: Some(message) on a violation
+pub fn fuzz_one(tape: &[u32]) -> Option<String> {
+    let case = gen_case(&mut Tape::new(tape), true);
+    match check(case.mode, &case.macro_name, &case.attr, &case.item) {
+        Ok(_) => None,
+        Err(e) if e.starts_with("HARNESS") => None,
+        Err(e) => Some(format!("{e}\nattr: {}\nitem: {}", case.attr, case.item)),
+    }
+}
+
 pub fn run(ctx: &mut Ctx) {
     ctx.rule = "cases = (macro variant, attribute, fn | module | impl-block item) decoded from a proptest choice tape over the \
                 grammar in engine/src/gen.rs; counted as non-trivial when the macro ACCEPTED the input and the item has at least one attribute/qualifier, \
